@@ -529,6 +529,8 @@ def render_ast(r, top=True):
         return "[" + "".join(ch(c) for c in r[1]) + "]"
     if t == "look":
         return "$"
+    if t == "empty":
+        return ""
     if t == "cat":
         return "".join(render_group(x, "cat") for x in r[1:3])
     if t == "alt":
@@ -554,7 +556,7 @@ def render_ast(r, top=True):
 
 def render_group(x, ctx):
     s = render_ast(x, False)
-    if x[0] == "alt":
+    if x[0] == "alt" or (x[0] == "empty" and ctx == "rep"):
         return "(?:" + s + ")"
     if ctx == "rep" and not (x[0] == "cls" or (x[0] == "lit" and len(x[1]) == 1)):
         return "(?:" + s + ")"
